@@ -46,6 +46,12 @@ func evalC07Bytes(c c07Bytes, o *Obs) error {
 	if !bytes.Equal(dec, c.B) {
 		return fmt.Errorf("base58.Decode(Encode(%x)) = %x", []byte(c.B), dec)
 	}
+	for i := range dec { // results belong to the caller: a later call must not see the scribble
+		dec[i] ^= 0x5a
+	}
+	if again := base58.Decode(enc); !bytes.Equal(again, c.B) {
+		return fmt.Errorf("base58.Decode(%q) returns %x after the caller modified the slice returned by an earlier call", enc, again)
+	}
 	if len(c.B) > 0 {
 		o.NT()
 	}
@@ -220,6 +226,17 @@ func evalC07Check(c c07Check, o *Obs) error {
 	} else {
 		o.Class("b58check:rejected")
 	}
+	if ok {
+		for i := range gotP {
+			gotP[i] ^= 0x77
+		}
+		if again, _, err := base58.CheckDecode(s); err != nil || !bytes.Equal(again, wantP) {
+			return fmt.Errorf("CheckDecode(%q) returns %x (err %v) after the caller modified an earlier result", s, again, err)
+		}
+		for i := range gotP {
+			gotP[i] ^= 0x77
+		}
+	}
 	if c.Mut == 0 && (!ok || !bytes.Equal(gotP, c.Payload) || gotV != c.Version) {
 		return fmt.Errorf("CheckDecode(CheckEncode(%x,%d)) = (%x,%d,%v)", []byte(c.Payload), c.Version, gotP, gotV, err)
 	}
@@ -308,6 +325,12 @@ func evalC07Bech(c c07Bech, o *Obs) error {
 		}
 		if hrp != c.Hrp || !bytes.Equal(data, c.Data) {
 			return fmt.Errorf("bech32.Decode(%q) = (%q,%x), want (%q,%x)", s, hrp, data, c.Hrp, []byte(c.Data))
+		}
+		for i := range data { // results belong to the caller
+			data[i] ^= 0x1f
+		}
+		if _, again, err := bech32.Decode(s); err != nil || !bytes.Equal(again, c.Data) {
+			return fmt.Errorf("bech32.Decode(%q) returns %x (err %v) after the caller modified the slice returned by an earlier call, want %x", s, again, err, []byte(c.Data))
 		}
 	}
 	return nil
